@@ -789,7 +789,8 @@ func (w *vkC09World) refresh(ev vkC09Ev) (*vkC09Viol, string) {
 				files++
 			}
 		}
-		if files != 2 || nw != 2*vkC09WritesPerFile {
+		// (an implementation may skip rewriting a store that did not change: one file is as legitimate as two)
+		if files < 1 || files > 2 || nw != files*vkC09WritesPerFile {
 			return &vkC09Viol{Key: "harness", Msg: fmt.Sprintf("harness: unexpected persistence log layout: %d files, %d writes", files, nw)}, "harness"
 		}
 	}
